@@ -389,6 +389,18 @@ def gSetPolicy (g : Group) (p : Policy) (fixedIdx : Int) (snap : Nat → Nat →
     ({ g with policy := p, fixedIdx := fixedIdx, hasSets := true, sets := r.1 }, r.2)
   | true, false => ({ g with policy := p, fixedIdx := fixedIdx, hasSets := false }, [])
 
+/-! ### histories of a group -/
+
+inductive GEv where
+  | notify (t d : Nat) (alive : Bool) (snap : Option Int)
+  | setPolicy (p : Policy) (fixedIdx : Int) (snap : Nat → Nat → Option Int)
+
+def stepG (g : Group) : GEv → Group
+  | .notify t d a sn => (gNotify g t d a sn).1
+  | .setPolicy p fi sn => (gSetPolicy g p fi sn).1
+
+def runG (g : Group) (h : List GEv) : Group := h.foldl stepG g
+
 inductive SelErr where
   | noDialers | noAlive | outOfRange | unsupported
 deriving DecidableEq, Repr
